@@ -1493,7 +1493,20 @@ static void run_history(uint64_t seed, bool thorough)
             logged_produce(S, static_cast<uint64_t>(p), base[static_cast<size_t>(p)] + static_cast<uint64_t>(k));
         });
       if (c.flush_races_shutdown)
-        th.emplace_back([&S, &r] { logged_flush(S, FlushSpec{4}); });
+      {
+        // 1..4 ForceFlush callers (indefinite timeouts) queueing up while Shutdown arrives: each must return.
+        // Long injected sleeps at the atomic operations open the window between a caller's shutdown check and
+        // its ticket increment wide enough for a whole Shutdown to pass through (seeded change C02-w2-2).
+        if ((seed >> 31) & 1)
+          vf_configure(seed, c.yield_ppm, std::max(c.sleep_ppm, 80000u), c.cas_ppm, c.wake_ppm, 4000);
+        int nf = 1 + static_cast<int>((seed >> 28) & 3);
+        for (int f = 0; f < nf; ++f)
+          th.emplace_back([&S, f] {
+            logged_flush(S, FlushSpec{(f & 1) ? 0 : 4});
+            if (f & 2)
+              logged_flush(S, FlushSpec{4});
+          });
+      }
       for (int k = 0; k < c.shutdown_threads; ++k)
         th.emplace_back([&S] { logged_shutdown(S, 0); });
       for (auto &t : th)
